@@ -6,7 +6,7 @@ class C06(CleanExplore):
     id = "C06"
     which = "C06"
     rule = ("same exploration as C05; each pass is called directly (no catch-all) and must return within the watchdog; the fixed-point "
-            "passes are applied a second time and must not change the tree; clean_all() must report no swallowed ERROR; "
+            "passes are applied a second time and must not change the tree; clean_all() must report no swallowed ERROR; the articles of a book cleaned in one go must come out as from one-article books; "
             "distinct = distinct final trees")
     assumptions = ("inputs from the stated alphabets (mc/gen/wikitext.py, mc/gen/cleantriggers.py)",)
 
